@@ -52,7 +52,7 @@ type cmdSpec struct {
 func main() {
 	r := mc.NewRun("C03")
 	nRot := mc.Pick(r, 2, 3)
-	r.Rule(fmt.Sprintf("E3 over histories bootstrap; rotate; rotate with a colliding serial (refused); the same with --overwrite (replaces a certificate object); rotate serial=9; rotate serial=9 --keep_going (colliding); [thorough: rotate with a new common name] (bound %d) through the real CLI for memkm+memca, memkm+gcsca and localkm+localca with fresh component objects per command, and for the two storage-backed authorities also with one set of objects kept alive over the whole history; after each command 18 endorse request shapes {snp, tdx, both} x {launch VMSAs 0,1,2} x {changelist, commit} plus 5 with document dates of unusual magnitude (2262-04-11T23:47:17Z, 2300, 9999, 1969 with a fraction, 1600); every endorsement issued so far is re-verified after every later command at {start-1s, start, mid, end, end+1s} of the intersection of both certificates' validity; states = distinct (authority, history prefix, request shape); non-trivial = distinct (endorsement, verification time, entry point) accepted inside validity", nRot))
+	r.Rule(fmt.Sprintf("E3 over histories bootstrap; rotate; rotate with a colliding serial (refused); the same with --overwrite (replaces a certificate object); rotate serial=9; rotate serial=9 --keep_going (colliding); [thorough: rotate with a new common name] (bound %d) through the real CLI for memkm+memca, memkm+gcsca and localkm+localca with fresh component objects per command, and for the two storage-backed authorities also with one set of objects kept alive over the whole history; after each command 18 endorse request shapes {snp, tdx, both} x {launch VMSAs 0,1,2} x {changelist, commit} plus one with changelist and commit together and 5 with document dates of unusual magnitude (2262-04-11T23:47:17Z, 2300, 9999, 1969 with a fraction, 1600); every endorsement issued so far is re-verified after every later command at {start-1s, start, mid, end, end+1s} of the intersection of both certificates' validity; states = distinct (authority, history prefix, request shape); non-trivial = distinct (endorsement, verification time, entry point) accepted inside validity", nRot))
 	defer kmfx.Cleanup()
 	image := fx.SmallImage(0x3000)
 	fwDir := filepath.Join(kmfx.ScratchRoot(), "fw")
@@ -106,6 +106,11 @@ func main() {
 				shapes = append(shapes, shape{strings.Join(a, " "), a, ""})
 			}
 		}
+	}
+	// Both kinds of provenance in one request (each flag alone is in the product above).
+	{
+		a := []string{"--add_snp", "--add_tdx", "--snp_launch_vmsas=1", "--clspec=5", "--commit=" + strings.Repeat("ab", 20)}
+		shapes = append(shapes, shape{strings.Join(a, " "), a, ""})
 	}
 	// Document dates of unusual magnitude (the date of the document is the requester's; it is not
 	// bound to the certificates' validity): beyond what an int64 of nanoseconds since 1970 holds,
